@@ -551,6 +551,126 @@ def check_window(chk, rule, prog, kinds, floor, control):
     return n
 
 
+def check_stop_cfg(chk, rule, prog, eff):
+    """A must-pass-through rule on the flow graph of cbor_load (no path enumeration, so it also answers when the routine has grown
+    too many paths for the path engine): between two steps that can hand an item to the tree builder - a call of the streaming
+    decoder, or a direct call of anything that reaches the builder's append / push routines - control passes through a test that
+    found the decoding stack non-empty.  Once the stack is empty the top-level item is complete; a further step overwrites it."""
+    from ir import Inst, Const, strip_casts
+    f = prog.fn("cbor_load")
+    size_off = prog.field_offset("_cbor_stack", "size")
+    builders = {n for n in prog.funcs if n in ("_cbor_builder_append", "_cbor_stack_push")}
+    reach_b = set()
+    for n in prog.funcs:
+        tc = eff.transitive_callees(n)
+        if builders & (set(tc) | {n}):
+            reach_b.add(n)
+    steps = []
+    for i in f.all_insts():
+        if i.op == "call" and i.callee and (i.callee == "cbor_stream_decode" or i.callee in reach_b):
+            g = prog.funcs.get(i.callee)
+            if g is not None and g.internal:
+                # a unit-internal helper: its own body is looked at in place (it may contain the step, or the test)
+                pass
+            steps.append(i)
+
+    def is_size_load(v):
+        v = strip_casts(v, ("bitcast", "zext", "sext", "trunc"))
+        if not (isinstance(v, Inst) and v.op == "load"):
+            return False
+        a = strip_casts(v.operands[0])
+        return isinstance(a, Inst) and a.op == "getelementptr" and a.d.get("src_type") == "%struct._cbor_stack" and a.d.get("const_offset") == size_off
+
+    def size_test(c, truth):
+        """does the comparison c, having the given truth value, say the stack is non-empty?"""
+        x, y = c.operands
+        pred = c.pred
+        if isinstance(x, Const) and not isinstance(y, Const):
+            x, y = y, x
+            pred = {"ugt": "ult", "ult": "ugt", "uge": "ule", "ule": "uge"}.get(pred, pred)
+        if not (is_size_load(x) and isinstance(y, Const)):
+            return False
+        pos = (pred == "ugt" and y.v == 0) or (pred == "ne" and y.v == 0) or (pred == "uge" and y.v == 1)
+        neg = (pred == "eq" and y.v == 0) or (pred == "ule" and y.v == 0) or (pred == "ult" and y.v == 1)
+        return pos if truth else neg
+
+    def implies(v, truth, pred_block, depth=0):
+        """value v being `truth` implies a non-empty stack (phis of the current block are read for the predecessor we came from)"""
+        if depth > 6:
+            return False
+        if isinstance(v, Const):
+            return bool(v.v) != truth       # the value cannot have this truth: vacuously fine
+        if not isinstance(v, Inst):
+            return False
+        if v.op in ("zext", "trunc", "sext", "bitcast"):
+            return implies(v.operands[0], truth, pred_block, depth + 1)
+        if v.op == "icmp":
+            if size_test(v, truth):
+                return True
+            a, b = v.operands
+            if isinstance(b, Const) and b.v == 0 and v.pred in ("ne", "eq"):
+                return implies(a, truth if v.pred == "ne" else not truth, pred_block, depth + 1)
+            return False
+        if v.op == "xor" and isinstance(v.operands[1], Const) and v.operands[1].v == 1:
+            return implies(v.operands[0], not truth, pred_block, depth + 1)
+        if v.op == "phi":
+            inc = v.incoming
+            if pred_block is not None and v.block is not None and any(pb is pred_block for _x, pb in inc):
+                inc = [(x, pb) for x, pb in inc if pb is pred_block]
+            return all(implies(x, truth, None, depth + 1) for x, _pb in inc)
+        if v.op == "and" and truth:
+            return any(implies(x, True, pred_block, depth + 1) for x in v.operands)
+        if v.op == "or" and not truth:
+            return any(implies(x, False, pred_block, depth + 1) for x in v.operands)
+        return False
+
+    ntests = sum(1 for b in f.blocks for i in b.insts if i.op == "icmp" and (size_test(i, True) or size_test(i, False)))
+    chk.floor(rule, "tests of the decoding stack's depth against zero in cbor_load", ntests, 1)
+    chk.floor(rule, "steps of cbor_load that can hand an item to the builder", len(steps), 1)
+
+    def out_edges(b, came_from):
+        t = b.term
+        if t.op == "br" and len(b.succs) == 2 and b.succs[0] is not b.succs[1]:
+            c = t.operands[0]
+            res = []
+            if not implies(c, True, came_from):
+                res.append(b.succs[0])
+            if not implies(c, False, came_from):
+                res.append(b.succs[1])
+            return res
+        return list(b.succs)
+
+    # from each step, walk the flow graph without crossing an edge on which the stack is known to be non-empty: no step may be reachable
+    for sidx, st in enumerate(steps):
+        seen = set()
+        hit = None
+        blk = st.block
+        after = [i for i in blk.insts if i.pos > st.pos]
+        nxt = next((i for i in after if i in steps), None)
+        work = []
+        if nxt is not None:
+            hit = nxt
+        else:
+            # the step's own block may be entered from several predecessors: none is singled out
+            work = [(s_, blk) for s_ in out_edges(blk, None)]
+        while work and hit is None:
+            b, p = work.pop()
+            if (b.id, p.id) in seen:
+                continue
+            seen.add((b.id, p.id))
+            inb = next((i for i in b.insts if i in steps), None)
+            if inb is not None:
+                hit = inb
+                break
+            for s_ in out_edges(b, p):
+                work.append((s_, b))
+        ok = hit is None
+        chk.ob(rule, "cbor_load: after the step at line %d no further step is reachable without a test that found the stack non-empty" % st.line, ok,
+               st.loc(), fn=f.name, key="stopcfg:%d" % sidx,
+               detail="" if ok else "the step at line %d (%s) can follow it with the stack empty: the finished top-level item is overwritten by "
+                                    "whatever comes next in the buffer" % (hit.line, hit.callee))
+
+
 def check_payload_reads(chk, rule, prog, eff):
     """A string's payload is `length` bytes long (possibly none).  Every read of a payload byte at a computed index - the
     payload pointer being the item's data field, however it was fetched - sits below the length on that path: the index is
